@@ -32,13 +32,15 @@ TPass == /\ Ev.e = "Pass"
                              pass |-> p, changed |-> ch, stage |-> cur])
          /\ npass' = npass + 1
          /\ UNCHANGED <<modOn, cmtOn>>
-(* 'why' names the one documented rewrite that is not a change of layout: a blank is        *)
-(* inserted after the '*' leader of a continuation line ('*text' -> '* text').               *)
+(* 'why' names two rewrites of comment text that are not a change of layout: a blank is     *)
+(* inserted after the '*' leader of a continuation line ('*text' -> '* text'); a tab that    *)
+(* follows a blank inside the comment is expanded to blanks (cinT / coutT: blank runs merged) *)
 TOut == /\ Ev.e = "Out"
         /\ LET bad == (IF ~modOn /\ Ev.tin # Ev.tout THEN {"TokensPreserved"} ELSE {}) \cup
                       (IF ~cmtOn /\ Ev.cin # Ev.cout THEN {"CommentsPreserved"} ELSE {}) \cup
                       (IF ~cmtOn /\ ~modOn /\ Ev.lin # Ev.lout THEN {"LiteralsPreserved"} ELSE {})
-               why == IF "cinS" \in DOMAIN Ev /\ Ev.cin # Ev.cout /\ Ev.cinS = Ev.coutS THEN "StarLeaderSpace" ELSE ""
+               why == IF "cinS" \in DOMAIN Ev /\ Ev.cin # Ev.cout /\ Ev.cinS = Ev.coutS THEN "StarLeaderSpace"
+                      ELSE IF "cinT" \in DOMAIN Ev /\ Ev.cin # Ev.cout /\ Ev.cinT = Ev.coutT THEN "TabToBlanksInComment" ELSE ""
                silent == IF npass = 0 THEN {"HookSilent"} ELSE {}      \* an execution that produced output without a single pass event
            IN (bad # {} \/ silent # {}) => Report([l |-> l, id |-> Ev.id, bad |-> bad, drift |-> silent, pass |-> firstTouch,
                                   changed |-> {}, stage |-> cur, why |-> why])
